@@ -500,7 +500,7 @@ def call_mutator(o, c, m):
     elif m == "setTemperature":
         o.setTemperature(712.0)
     elif m == "setDimension":
-        o.setDimension("od", 0.91)
+        o.setDimension("od" if "od" in o.p.paramDefs.names else "mult", 0.91)
     elif m == "setMass":
         o.setMass(_first_nuclide(o), 1.5)
     elif m == "addMass":
@@ -756,6 +756,8 @@ def cover(graph, adapter, targets, maxwalk=14, on_div=None):
                 st["covered"] += 1
                 if s["_fk"] != s["_tk"]:
                     st["nontrivial"] += 1
+        if hasattr(adapter, "dispose"):
+            adapter.dispose(w)
     return st, divs
 
 
@@ -765,25 +767,31 @@ def cover(graph, adapter, targets, maxwalk=14, on_div=None):
 P_ACTS = ("Enter", "Exit", "Assign")
 # exhaustive instances: label -> (cfg, actions that must have been taken)
 MC_QUICK = {
-    "all": ("RetainState_mc.cfg", ("Enter", "Exit", "Assign", "AssignRO", "SetCache", "SetGrid", "Copy", "MakeReadOnly")),
+    "all": ("RetainState_mc.cfg", ("Enter", "Exit", "Assign", "AssignRO", "SetCache", "SetGrid", "Copy", "MakeReadOnly",
+                                   "CallRO", "WriteDb", "LoadDbV")),
     "params": ("RetainState_mcP.cfg", P_ACTS),
     "grid": ("RetainState_mcG.cfg", ("Enter", "Exit", "SetGrid", "SetCache")),
     "copy": ("RetainState_mcC.cfg", ("Assign", "AssignRO", "Copy", "MakeReadOnly")),
+    "db": ("RetainState_mcD.cfg", ("WriteDb", "LoadDbV", "Copy", "Assign", "AssignRO")),
 }
 MC_THOROUGH = {
-    "all": ("RetainState_mc_thorough.cfg", MC_QUICK["all"][1]),
+    "all": ("RetainState_mc_thorough.cfg", tuple(a for a in MC_QUICK["all"][1] if a != "LoadDbV")),  # (pool of 1)
     "params": ("RetainState_mcP_thorough.cfg", P_ACTS),
     "params-deep": ("RetainState_mcP2_thorough.cfg", P_ACTS),
     "grid": ("RetainState_mcG_thorough.cfg", MC_QUICK["grid"][1]),
     "copy": ("RetainState_mcC_thorough.cfg", MC_QUICK["copy"][1]),
+    "db": ("RetainState_mcD_thorough.cfg", MC_QUICK["db"][1]),
 }
 # emission instances: label -> (cfg, every edge under every profile?)   (otherwise the edges are dealt out to the profiles)
 EMIT_QUICK = {
+    "read-only": ("RetainState_emitR.cfg", True),
     "copy": ("RetainState_emitC.cfg", False),
     "grid": ("RetainState_emitG.cfg", False),
     "params": ("RetainState_emitP.cfg", False),
 }
 EMIT_THOROUGH = {
+    "read-only": ("RetainState_emitR.cfg", True),
+    "read-only-copies": ("RetainState_emitR_thorough.cfg", False),
     "copy": ("RetainState_emitC_thorough.cfg", False),
     "grid": ("RetainState_emitG_thorough.cfg", False),
     "params-shared": ("RetainState_emitP2_thorough.cfg", False),
@@ -845,17 +853,22 @@ def run(rep, tier, seed):
           for k, v in EM.items()}
 
     # 1. exhaustive model checking: one instance after the other, in the background -------------------------
-    nw = max(2, common.NCPU // 2) if thorough else max(2, common.NCPU // 3)
+    nw = max(2, common.NCPU // 2) if thorough else max(2, common.NCPU // 4)
 
-    def chain():
-        return {k: tlc.run("RetainState_mc", v[0], MODDIR, workers=nw, want_prints=False, timeout=6000)
-                for k, v in MC.items()}
+    def chain(keys):
+        return {k: tlc.run("RetainState_mc", MC[k][0], MODDIR, workers=nw, want_prints=False, timeout=6000) for k in keys}
 
-    mc = _Bg(chain)
+    names = list(MC)
+    mcs = ([_Bg(lambda ks=names[0::2]: chain(ks)), _Bg(lambda ks=names[1::2]: chain(ks))] if thorough
+           else [_Bg(lambda ks=names: chain(ks))])
     # 3. code -> spec runs in a child process next to the edge replay (both are CPU-bound python)
-    outp = os.path.join(common.workdir("c16tr"), "traces.json")
-    child = subprocess.Popen([sys.executable, "-m", "props.c16", "--traces", tier, str(seed), outp], cwd=common.ROOT,
-                             stdout=subprocess.DEVNULL, stderr=subprocess.DEVNULL)
+    cwd_ = common.workdir("c16tr")
+    children = {}
+    for what in ("traces", "db"):
+        outp = os.path.join(cwd_, what + ".json")
+        children[what] = (outp, subprocess.Popen(
+            [sys.executable, "-m", "props.c16", "--child", what, tier, str(seed), outp], cwd=common.ROOT,
+            stdout=subprocess.DEVNULL, stderr=subprocess.DEVNULL))
     adapters = {p: MiniAdapter(p) for p in PROFILES}
     timing["setup"] = round(time.time() - t0, 1)
     keys_seen = {}
@@ -902,19 +915,24 @@ def run(rep, tier, seed):
 
     # 3. code -> spec ------------------------------------------------------------------------------------
     t1 = time.time()
-    if child.wait() != 0 or not os.path.exists(outp):
-        raise tlc.MachineryError("trace recorder process failed (rc=%s)" % child.returncode)
-    with open(outp) as f:
-        out = json.load(f)
-    if "machinery" in out:
-        raise tlc.MachineryError(out["machinery"])
-    traces_report(rep, out)
-    timing["wait-traces"] = round(time.time() - t1, 1)
+    for what, (outp, child) in children.items():
+        if child.wait() != 0 or not os.path.exists(outp):
+            raise tlc.MachineryError("%s process failed (rc=%s)" % (what, child.returncode))
+        with open(outp) as f:
+            out = json.load(f)
+        if "machinery" in out:
+            raise tlc.MachineryError(out["machinery"])
+        (traces_report if what == "traces" else db_report)(rep, out)
+    timing["wait-traces+db"] = round(time.time() - t1, 1)
 
     # 1'. collect the exhaustive runs
     t1 = time.time()
     sany.get()
-    for k, res in mc.get().items():
+    mcres = {}
+    for th in mcs:
+        mcres.update(th.get())
+    for k in MC:
+        res = mcres[k]
         rep.add_tlc("exhaustive:%s:%s" % (k, MC[k][0]), res)
         if res.violation:
             rep.violation("tlc:" + res.violation["name"], "TLC: %s violated in the specification (%s)" % (
@@ -932,6 +950,10 @@ def run(rep, tier, seed):
         "'serial numbers are never shared by two live objects' is read literally, also for a pickle round trip made "
         "while the original is alive",
         "the class-level flag Parameter.assigned is bookkeeping, not a value: it may change on a refused assignment",
+        "a reactor loaded from a database legitimately carries the serial numbers of the objects it was written from; "
+        "nothing created after a load may collide with any live object (the counter never falls behind a live serial)",
+        "read-only family: every public mutator that routes through parameters is called with valid arguments on an object "
+        "that is read-only together with everything beneath it; grids are not parameters",
     )
 
 
@@ -1022,7 +1044,7 @@ class ReactorRecorder:
         r = copy.deepcopy(self.template)
         objs = [r] + list(r.iterChildren(deep=True))
         w = {"obj": {i + 1: o for i, o in enumerate(objs)}, "cls": {}, "stack": [], "err": "", "vid": {}, "rid": {},
-             "gid": {}, "prof": "reactor", "shapes": [], "db": None, "dbwalk": None, "dbn": 0}
+             "gid": {}, "prof": "reactor", "shapes": [], "db": None, "dbwalk": None, "dbn": 0, "dirty": False}
         for i, o in w["obj"].items():
             w["cls"][i] = self.family(o)
         return w
@@ -1072,8 +1094,10 @@ class ReactorRecorder:
 
     def dispose(self, w):
         if w.get("db") is not None:
-            try:
-                w["db"].close()
+            try:  # (not Database.close(): that shells out to `mv` to move the file onto itself)
+                if w["db"].h5db is not None:
+                    w["db"].h5db.close()
+                    w["db"].h5db = None
             except Exception:
                 pass
             try:
@@ -1199,7 +1223,15 @@ class ReactorRecorder:
                 f = w["cls"][o]
                 p = rng.choice(RPAR)
                 a = {"n": "Assign", "o": o, "p": p, "v": None}
-                setattr(O[o].p, RBIND[f][p], self.value(rng, p, f))
+                if f == "cmp" and p == "d":
+                    # a valid composition (the mutators of later events must be able to work with it)
+                    cur = O[o].p.numberDensities
+                    newv = {k: v * rng.choice([0.5, 1.0, 2.0]) for k, v in cur.items()}
+                else:
+                    newv = self.value(rng, p, f)
+                    if p != "s":
+                        w["dirty"] = True  # arbitrary values of arbitrary kinds: not something a database can hold
+                setattr(O[o].p, RBIND[f][p], newv)
             elif kind == "Ndens":
                 cands = [i for i in writable if w["cls"][i] == "cmp" and O[i].parent is not None]
                 if not cands:
@@ -1240,12 +1272,21 @@ class ReactorRecorder:
                 a = {"n": "SetGrid", "o": o, "g": None}
                 self.change_grid(O[o], w["cls"][o], rng)
             elif kind == "WriteDb":
-                roots = [i for i in live if w["cls"][i] == "r" and O[i].parent is None]
-                if not roots or (w["dbn"] >= 3 and not force):
+                roots = [i for i in live if w["cls"][i] == "r" and O[i].parent is None
+                         and all(not O[j].p.readOnly for j in self.subtree(w, i))]
+                if not roots or w["dirty"] or (w["dbn"] >= 3 and not force):
                     return None
                 r = force.get("o", roots[0]) if force else rng.choice(roots)
-                a = {"n": "WriteDb", "r": r}
-                self.db_write(w, r)
+                sub = sorted(self.subtree(w, r))
+                lazy = [j for j in sub if w["cls"][j] == "cmp" and O[j].p.volume is None]
+                if lazy:
+                    # volume is a lazily computed parameter: reading it (which writing a database does) stores it
+                    a = {"n": "Havoc", "o": lazy[0], "touched": sub, "call": "getVolume"}
+                    for j in lazy:
+                        O[j].getVolume()
+                else:
+                    a = {"n": "WriteDb", "r": r}
+                    self.db_write(w, r)
             elif kind in ("LoadDb", "LoadDbRO"):
                 if w["db"] is None or len(live) + len(w["dbwalk"]) > NMAX:
                     return None
@@ -1373,6 +1414,96 @@ class ReactorRecorder:
         return {"id": tid, "init": init, "ev": ev}
 
 
+class DbAdapter:
+    """replay adapter of the database family: the smallest test reactor, a real Database file per world"""
+
+    def __init__(self, recorder):
+        self.rec = recorder
+        self.name = "reactor-db"
+        self.prof = {}
+
+    def build(self, root):
+        w = self.rec.new_world()
+        if [w["cls"][i] for i in sorted(w["obj"])] != list(root["cls"] if "cls" in root else self.expect_cls):
+            raise tlc.MachineryError("the smallest test reactor is not the tree of RetainState_emitD.cfg")
+        return w
+
+    expect_cls = ["r", "core", "sfp", "asm", "blk"] + ["cmp"] * 7
+
+    def dispose(self, w):
+        self.rec.dispose(w)
+
+    def label(self, w, oid, p):
+        return self.rec.label(w, oid, p)
+
+    def apply(self, w, a):
+        O = w["obj"]
+        n = a["n"]
+        w["err"] = ""
+        try:
+            if n == "WriteDb":
+                self.rec.db_write(w, a["r"])
+            elif n in ("LoadDb", "LoadDbRO"):
+                ids = self.rec.db_load(w, n == "LoadDbRO")
+                if ids != [list(x) for x in a["ids"]]:
+                    raise AssertionError("loaded objects %r, specification %r" % (ids, a["ids"]))
+            elif n == "DeepCopy":
+                src = O[a["x"]]
+                new = copy.deepcopy(src)
+                olds = [src] + list(src.iterChildren(deep=True))
+                news = [new] + list(new.iterChildren(deep=True))
+                ident = {id(v): k for k, v in O.items()}
+                to = {s_: d for s_, d in a["ids"]}
+                if len(olds) != len(news) or len(olds) != len(to):
+                    raise AssertionError("copy has %d nodes, source %d, specification %d" % (len(news), len(olds), len(to)))
+                for oo, nn in zip(olds, news):
+                    s_ = ident[id(oo)]
+                    O[to[s_]] = nn
+                    w["cls"][to[s_]] = w["cls"][s_]
+            else:
+                raise tlc.MachineryError("unknown action " + n)
+        except tlc.MachineryError:
+            raise
+        except Exception as ex:
+            w["err"] = type(ex).__name__
+            w["errtext"] = "%s: %s" % (type(ex).__name__, str(ex)[:200])
+        return w["err"]
+
+    def project(self, w):
+        O = w["obj"]
+        live = sorted(O)
+        ident = {id(v): k for k, v in O.items()}
+        ser = [O[i].p.serialNum for i in live]
+        return {"parent": [0 if O[i].parent is None else ident.get(id(O[i].parent), -1) for i in live],
+                "cls": [w["cls"][i] for i in live],
+                "sameSerialAs": [min(j for j, s_ in zip(live, ser) if s_ == ser[k]) for k in range(len(live))],
+                "ro": [bool(O[i].p.readOnly) for i in live], "err": w["err"]}
+
+
+def db_replay(thorough, recorder):
+    """spec -> code for the database family; returns plain data like traces_collect"""
+    cfg = "RetainState_emitD_thorough.cfg" if thorough else "RetainState_emitD.cfg"
+    res = tlc.run("RetainState_mc", cfg, MODDIR, workers=1, coverage=False, timeout=3000)
+    g = EdgeGraph(res.prints)
+    g.rootvars = dict(g.rootvars, cls=DbAdapter.expect_cls)
+    ad = DbAdapter(recorder)
+    st, divs = cover(g, ad, range(len(g.edges)))
+    out = {"cfg": cfg, "tlc": {"summary": res.summary(), "distinct": res.distinct, "generated": res.generated},
+           "edges": len(g.edges), "stats": st, "violations": [], "keys": {}}
+
+    class Rep:
+        def violation(self, key, what, payload=None):
+            out["keys"][key] = out["keys"].get(key, 0) + 1
+            if out["keys"][key] == 1:
+                out["violations"].append({"key": key, "what": what, "payload": payload})
+
+    for d in divs:
+        d["root"] = {"parent": g.rootvars["parent"], "cls": DbAdapter.expect_cls}
+        d["from"] = None
+        report_div(Rep(), d, ad, "replay-db")
+    return out
+
+
 def traces_collect(thorough, seed, recorder=None, ntraces=None):
     """record + validate; returns plain data (so that it can run in a child process next to the edge replay)"""
     rec = recorder or ReactorRecorder()
@@ -1475,10 +1606,27 @@ def traces_report(rep, out):
         raise tlc.MachineryError("vacuous: no trace events were recorded")
 
 
-def _child_traces(argv):
-    tier, seed, outp = argv[0], int(argv[1]), argv[2]
+def db_report(rep, out):
+    rep.add_tlc("edges:" + out["cfg"], _TlcShim(out["tlc"]))
+    st = out["stats"]
+    rep.add_replay("edges-database", st["covered"], st["nontrivial"],
+                   "database family: every edge of the write / load / loadReadOnly / deep-copy graph is executed on the "
+                   "smallest test reactor with a real Database file; parent links, classes, read-only flags and the "
+                   "serial-number sharing classes are compared after every step")
+    rep.extra.setdefault("replay", {})["edges-database"].update(
+        {"edges_in_graph": out["edges"], "walks": st["walks"], "steps_executed": st["steps"],
+         "divergent_edges": st["divergent"], "edges_not_reachable_without_a_divergent_edge": st["blocked"]})
+    for v in out["violations"]:
+        rep.violation(v["key"], v["what"], v["payload"])
+    if out["edges"] == 0 or st["covered"] == 0:
+        raise tlc.MachineryError("vacuous: no database edge was replayed")
+
+
+def _child(argv):
+    what, tier, seed, outp = argv[0], argv[1], int(argv[2]), argv[3]
     try:
-        out = traces_collect(tier == "thorough", seed)
+        rec = ReactorRecorder()
+        out = traces_collect(tier == "thorough", seed, recorder=rec) if what == "traces" else db_replay(tier == "thorough", rec)
     except tlc.MachineryError as ex:
         out = {"machinery": str(ex)}
     with open(outp, "w") as f:
@@ -1497,6 +1645,23 @@ def replay(payload):
         for a in payload["behaviour"]:
             ad.apply(w, a)
             got = ad.project(w)
+        d = rp.diff(payload["expected"], got)
+        if d:
+            print(json.dumps({"behaviour": payload["behaviour"], "first_difference": d, "error": w.get("errtext", ""),
+                              "expected": payload["expected"], "observed": got}, indent=1, default=str))
+            return 1
+        print("no divergence: behaviour conforms")
+        return 0
+    if direction == "replay-db":
+        ad = DbAdapter(ReactorRecorder())
+        w = ad.build({"cls": DbAdapter.expect_cls})
+        got = None
+        try:
+            for a in payload["behaviour"]:
+                ad.apply(w, a)
+                got = ad.project(w)
+        finally:
+            ad.dispose(w)
         d = rp.diff(payload["expected"], got)
         if d:
             print(json.dumps({"behaviour": payload["behaviour"], "first_difference": d, "error": w.get("errtext", ""),
@@ -1685,6 +1850,25 @@ def _mutants():
             object.__setattr__(self, "_backup", keepb)
         return swap(PC, "restoreBackup", rb)
     out.append(("collection keeps a single backup slot", m_exit_order))
+
+    def m_seed4():  # seeded change 4: the "other" density parameters are scaled (in place) before the refusal
+        def cf(self, factor):
+            self._changeOtherDensParamsByFactor(factor)
+            self.p.numberDensities = {nuc: dens * factor for nuc, dens in self.p.numberDensities.items()}
+        return swap(component.Component, "changeNDensByFactor", cf)
+    out.append(("changeNDensByFactor scales detailedNDens/pinNDens before the refusal", m_seed4))
+
+    def m_seed5():  # seeded change 5: Database.load moves the serial counter to the largest STORED serial
+        from armi.bookkeeping.db import database
+
+        orig = database.Database.load
+
+        def load(self, *a, **k):
+            r = orig(self, *a, **k)
+            pc.GLOBAL_SERIAL_NUM = int(max(x.p.serialNum for x in [r] + list(r.iterChildren(deep=True))))
+            return r
+        return swap(database.Database, "load", load)
+    out.append(("Database.load sets the serial counter to the database maximum", m_seed5))
     return out
 
 
@@ -1692,10 +1876,12 @@ def selftest():
     """prints caught/MISSED per mutant; 0 iff everything was caught (and TLC refutes the as-built mechanism)"""
     rc = 0
     # 0. the specification's own properties are not vacuous: the mechanisms as built are refuted by TLC
-    for cfg, want, what in (("RetainState_asbuilt_grid.cfg", "ExitRestoresGrid", "single grid backup slot"),
-                            ("RetainState_asbuilt_serial.cfg", "SerialsUnique", "unpickled copy keeps the serial")):
+    for cfg, want, what in (("RetainState_asbuilt_grid.cfg", ("ExitRestoresGrid",), "single grid backup slot"),
+                            ("RetainState_asbuilt_serial.cfg", ("SerialsUnique",), "unpickled copy keeps the serial"),
+                            ("RetainState_asbuilt_dbserial.cfg", ("SerialsBelowNext", "SerialFresh", "SerialsUnique"),
+                             "Database.load moves the serial counter to the stored maximum")):
         res = tlc.run("RetainState_mc", cfg, MODDIR, workers=4, want_prints=False, timeout=600)
-        ok = res.violation is not None and res.violation["name"] == want
+        ok = res.violation is not None and res.violation["name"] in want
         print("%s  spec-level: mechanism as built (%s) %s by TLC (%s)" % (
             "caught " if ok else "MISSED ", what, "refuted" if ok else "NOT refuted", res.violation["name"] if res.violation else "-"))
         rc |= 0 if ok else 1
@@ -1715,7 +1901,7 @@ def selftest():
     def keys_of(stop_at_new=None):
         rep = Rep()
         adapters = {p: MiniAdapter(p) for p in PROFILES}
-        for focus in ("copy", "grid", "params"):
+        for focus in ("read-only", "copy", "grid", "params"):
             g = graphs[focus]
             for pi, prof in enumerate(PROFILES):
                 ad = adapters[prof]
@@ -1724,10 +1910,16 @@ def selftest():
                     d["root"] = g.rootvars
                     k = report_div(rep, dict(d), ad, "replay")
                     return stop_at_new is not None and k not in stop_at_new
-                st, divs = cover(g, ad, [i for i in range(len(g.edges)) if i % len(PROFILES) == pi], on_div=on_div)
+                st, divs = cover(g, ad, [i for i in range(len(g.edges))
+                                         if EMIT_QUICK[focus][1] or i % len(PROFILES) == pi], on_div=on_div)
                 if stop_at_new is not None and any(k not in stop_at_new for k in rep.keys):
                     return rep.keys, "edge replay (%s, %s)" % (focus, prof)
         if stop_at_new is not None:
+            out = db_replay(False, rec)
+            for v in out["violations"]:
+                rep.keys.setdefault(v["key"], v["what"])
+            if any(k not in stop_at_new for k in rep.keys):
+                return rep.keys, "edge replay (database family on the reactor)"
             out = traces_collect(False, 0, recorder=rec, ntraces=25)
             for v in out["violations"]:
                 rep.keys.setdefault(v["key"], v["what"])
@@ -1735,9 +1927,9 @@ def selftest():
         return rep.keys, "-"
 
     base, _ = keys_of()
-    tb = traces_collect(False, 0, recorder=rec, ntraces=25)
-    for v in tb["violations"]:
-        base.setdefault(v["key"], v["what"])
+    for out in (db_replay(False, rec), traces_collect(False, 0, recorder=rec, ntraces=25)):
+        for v in out["violations"]:
+            base.setdefault(v["key"], v["what"])
     print("baseline (unchanged code) reports: %s" % sorted(base))
     for name, install in _mutants():
         undo = install()
@@ -1775,5 +1967,5 @@ def selftest():
 
 
 if __name__ == "__main__":
-    if len(sys.argv) >= 5 and sys.argv[1] == "--traces":
-        _child_traces(sys.argv[2:])
+    if len(sys.argv) >= 6 and sys.argv[1] == "--child":
+        _child(sys.argv[2:])
